@@ -53,11 +53,8 @@ func (c *DelegatedFunction) Name() string {
 //   - variantOperations: Variants operations manager.
 // Returns: A calculated function result.
 func (c *DelegatedFunction) Calculate(parameters []*variants.Variant,
-	variantOperations variants.IVariantOperations) (*variants.Variant, error) {
-	var result *variants.Variant
-	var err error
-
-	// Capture calculation error
+	variantOperations variants.IVariantOperations) (result *variants.Variant, err error) {
+	// Capture calculation error: the results are named so that the deferred function can set them
 	defer func() {
 		if r := recover(); r != nil {
 			message := cconv.StringConverter.ToString(r)
